@@ -7,6 +7,7 @@ import PynModel.Kernels.Threshold
 import PynModel.Kernels.ValueFrom
 import PynModel.Kernels.Count
 import PynModel.Kernels.Process
+import PynModel.Core.ISet
 /-!
 # Line protocol driver: one operation per input line, one canonical output line.
 Arrays are comma-separated integers, `-` is the empty array.  Anything the driver cannot
@@ -150,6 +151,23 @@ def kernelStep (toks : List String) : String :=
     match parseArr st, parseArr en, L.toInt?, step.toInt? with
     | some st, some en, some L, some step =>
       if h : st.size = en.size ∧ 0 < step then showPairs (overlapSplit st en h.1 L step h.2 0 #[])
+      else "pre-fail"
+    | _, _, _, _ => "bad-op"
+  | ["mkiset", st, en] =>
+    match parseArr st, parseArr en with
+    | some st, some en =>
+      if h : st.size = en.size then showPairs (ISet.mk st en h) else "ERR assert"
+    | _, _ => "bad-op"
+  | [op, s1, e1, s2, e2] =>
+    match parseArr s1, parseArr e1, parseArr s2, parseArr e2 with
+    | some s1, some e1, some s2, some e2 =>
+      if s1.size = e1.size ∧ s2.size = e2.size then
+        let a := s1.zip e1
+        let b := s2.zip e2
+        if op == "iunion" then showPairs (ISet.union a b)
+        else if op == "iintersect" then showPairs (ISet.intersect a b)
+        else if op == "idiff" then showPairs (ISet.diff a b)
+        else "bad-op"
       else "pre-fail"
     | _, _, _, _ => "bad-op"
   | _ => "bad-op"
